@@ -9,6 +9,7 @@ pub mod p_diff;
 pub mod p_files;
 pub mod p_matchers;
 pub mod p_merge;
+pub mod p_opheads;
 pub mod p_paths;
 pub mod p_tree;
 
@@ -24,6 +25,7 @@ pub fn dispatch(ctx: &Ctx) -> Option<i32> {
         "C04" => p_files::run_c04(ctx),
         "C05" => p_files::run_c05(ctx),
         "C07" => p_tree::run_c07(ctx),
+        "C14" => p_opheads::run_c14(ctx),
         "C30" => p_matchers::run_c30(ctx),
         "C31" => p_matchers::run_c31(ctx),
         "C32" => p_paths::run_c32(ctx),
